@@ -127,6 +127,31 @@ def run(ctx):
             ks = {strip_generics(o.call.name) for o in origins(fc, c.args[1], taint=True) if o.kind == "call"}
             inl = any(c.block in natural_loop(fc, hd) for hd in heads)
             r2.check("pgcat::pool::PoolIdentifier::new" in ks and inl, "insert-keyed-by-config-entry", "the entry is keyed by PoolIdentifier::new(pool, user) of the configuration entry being processed", "an entry of the new pool map is not keyed by the (pool, user) being processed", c.where())
+        # ... and it holds all of it: every turn of the per-user loop (the innermost loop that holds an insert) ends with an insert, or from_config fails as a
+        # whole - a turn that gives up on its pool and goes on publishes a map without a pool the accepted configuration lists, half of a reload applied
+        ins_ = [c for c in muts if c not in other]
+        if ins_:
+            uh = None
+            for hd in sorted(heads, key=lambda x: len(natural_loop(fc, x))):
+                if all(c.block in natural_loop(fc, hd) for c in ins_):
+                    uh = hd
+                    break
+            if uh is None:
+                r2.fail("every-configured-pool-published", "the inserts into the new pool map do not share a loop")
+            else:
+                lp = natural_loop(fc, uh)
+                # back edges of the per-user loop, reached from the header without an insert
+                latches = [u for u in lp if uh in fc.succ("n")[u]]
+                w = None
+                for la in latches:
+                    pth = fc.uncrossed_path([uh], [la], blocks=[c.block for c in ins_])
+                    # a path that leaves the loop's body through inner loops is still inside lp; the header itself as a start is fine
+                    if pth is not None and all(b_ in lp for b_ in pth):
+                        w = pth
+                        break
+                r2.check(w is None, "every-configured-pool-published", "every turn of the per-user loop of from_config ends with an insert into the new map (or from_config returns an error)",
+                         "a turn of the per-user loop of from_config can go on to the next user without inserting a pool: the map is published without a pool that CONFIG lists - its clients get `No pool configured` although the previous "
+                         "pool's servers are healthy, the rest of the file is applied (a half-applied reload), and the next reload sees `no change`", "", w and fc.describe_path(w))
     callers = F.callers_of("pgcat::pool::ConnectionPool::from_config")
     r2.check(set(callers) == {"bin:pgcat::main::{closure#1}", RELOAD}, "from_config-callers", "from_config is called from main (startup) and reload_config only", "from_config callers: %s" % callers)
     rl = ctx.body(RELOAD, r2)
